@@ -823,3 +823,96 @@ def c06_programs(backend):
     dm.extra_md.append({"metadata_type": other, "name": "Alien", "include_files": ["x.h"], "container_type": "a::B", "element_type": "a::C", "contains_collection": True})
     add(f"Select(EventDataset('ds'), lambda e: e.{names[0]}('A').Count())", tags=("must_raise", "other-backend"), dm=dm)
     return out
+
+
+# ------------------------------------------------------------------ C09: grafts of unsupported constructs
+def c09_programs(backend, tier):
+    """Every unsupported construct grafted into every expression position of a set of host queries.
+    All of them must be refused (tag must_raise)."""
+    v = VOCAB[backend]
+    P, S = v["prim"], v["sec"]
+    num_hosts = [       # @N = a numeric expression position (j is an element of PRIM)
+        "Select(EventDataset('ds'), lambda e: e.PRIM('A').Select(lambda j: @N))",
+        "Select(EventDataset('ds'), lambda e: e.PRIM('A').Select(lambda j: j.pt() + @N))",
+        "Select(EventDataset('ds'), lambda e: e.PRIM('A').Where(lambda j: @N > 1.5).Count())",
+        "Select(EventDataset('ds'), lambda e: e.PRIM('A').Select(lambda j: (@N if j.pt() > 1 else 0.0)))",
+        "Select(EventDataset('ds'), lambda e: e.PRIM('A').Select(lambda j: (1.0 if @N > 0 else 0.0)))",
+        "Select(EventDataset('ds'), lambda e: e.PRIM('A').Select(lambda j: j.pt() > 1 and @N > 0))",
+        "Select(EventDataset('ds'), lambda e: e.PRIM('A').Select(lambda j: abs(@N)))",
+        "Select(EventDataset('ds'), lambda e: e.PRIM('A').Select(lambda j: @N).Sum())",
+        "Select(EventDataset('ds'), lambda e: e.PRIM('A').Select(lambda j: e.SEC('B').Where(lambda t: t.pt() > @N).Count()))",
+        "Select(SelectMany(EventDataset('ds'), lambda e: e.PRIM('A')), lambda j: (j.pt(), @N))",
+        "Select(SelectMany(EventDataset('ds'), lambda e: e.PRIM('A')), lambda j: {'a': j.pt(), 'b': @N})",
+        "Select(EventDataset('ds'), lambda e: e.PRIM('A').Select(lambda j: j.pt()).Aggregate(0.0, lambda acc, x: acc + @NX))",
+    ]
+    num_grafts = [      # expressions that cannot be translated; j (object), e (event) in scope
+        "j.pt() // 2", "j.nTrk() << 1", "j.nTrk() >> 1", "j.nTrk() | 1", "j.nTrk() & 1", "j.nTrk() ^ 1", "j.pt() @ 2", "~j.nTrk()",
+        "(1 < j.pt() < 10)", "(j.pt() in (1, 2))", "(j.pt() is None)", "(j.pt() not in (1, 2))",
+        "j.vals()[0:2]", "j.vals()[1:]",
+        "e.PRIM('A') + 1", "1 - e.PRIM('A')", "e.PRIM('A') * 2", "e.PRIM('A') / 2", "2 / e.PRIM('A')", "e.PRIM('A') % 2", "e.PRIM('A') ** 2",
+        "j / 2", "2 / j", "j + 1", "j * 2", "j - j",
+        "'a' / j.pt()", "j.pt() / 'a'", "'a' + j.pt()", "j.pt() * 'a'",
+        "j.vals() + 1", "j.vals() / 2", "1 / j.vals()",
+        "e.PRIM('A').Select(lambda k: k.pt()) * 2", "e.PRIM('A').Select(lambda k: k.pt()) / 2",
+        "(j.pt(), j.eta()) + 1", "{'a': j.pt()} / 2",
+        "e.PRIM('A').Select(lambda k: k.pt()).Aggregate(lambda acc, x: acc + x)",
+        "e.PRIM('A').Select(lambda k: k.pt()).Aggregate(lambda x: x, lambda acc, x: acc + x)",
+        "e.PRIM('A').Count().Select(lambda c: c + 1)", "j.pt().Where(lambda x: x > 1)", "j.pt().Count()", "j.pt().First()", "e.PRIM('A').Count().First()",
+        "unknown_function(j.pt())", "j.pt().real", "math.sin(j.pt())",
+        "j.pt(x=1)", "j.pt(1, scale=2)", "e.PRIM('A', kind='x').Count()",
+        "j.pt().unknown()", "(lambda a, b: a + b)(j.pt())",
+        "e.PRIM('A').Select(lambda a, b: a.pt()).Sum()", 
+        "e.PRIM('A').Select().Count()",
+        "3j", "None", "b'x'",
+    ]
+    if backend == "atlas":
+        num_grafts += ["j.getAttribute('x')", "j.getAttributeFloat()", "j.getAttributeFloat('a', 'b')", "getAttributeFloat(j, 'a')", "DeltaR(j.eta(), j.phi())", "j.DeltaR(1, 2, 3, 4)"]
+    else:
+        num_grafts += ["isNonnull()", "isNonnull(j, j)"]
+    out = []
+    seen = set()
+
+    def add(q, tags):
+        q = q.replace("PRIM", P).replace("SEC", S)
+        if q in seen:
+            return
+        seen.add(q)
+        out.append(make_program(q, backend, tags=tags))
+    hosts = num_hosts if tier == "thorough" else num_hosts[:7] + num_hosts[9:11]
+    for h in hosts:
+        for gft in num_grafts:
+            if "@NX" in h:
+                g2 = gft.replace("j.", "x.").replace("(j", "(x").replace(" j ", " x ").replace("j /", "x /").replace("/ j", "/ x")
+                if "x.pt()" in g2 or "x.n" in g2 or "x.vals" in g2:
+                    continue        # x is a number in that host
+                add(h.replace("@NX", g2), ("must_raise", "graft"))
+            else:
+                add(h.replace("@N", gft), ("must_raise", "graft"))
+    # top-level shape errors
+    tops = [
+        "e.PRIM('A')",                                   # bare lambda is not a call
+        "Select(EventDataset('ds'), lambda e: e.PRIM('A'))",                  # raw objects
+        "Select(EventDataset('ds'), lambda e: e.PRIM('A').First())",
+        "Select(EventDataset('ds'), lambda e: e)",
+        "Select(EventDataset('ds'), lambda e: (e.PRIM('A').Count(), e.PRIM('A')))",
+        "Select(SelectMany(EventDataset('ds'), lambda e: e.PRIM('A')), lambda j: j)",
+        "Where(EventDataset('ds'), lambda e: True)",
+        "EventDataset('ds')",
+        "Select(EventDataset('ds'), lambda e: e.PRIM('A').Select(lambda j: j.pt()).Select(lambda p: p.Count()))",
+        "Select(EventDataset('ds'), lambda e: e.Nothing('A').Count())",
+        "SelectMany(EventDataset('ds'), lambda e: e.PRIM('A').Count())",
+        "Select(MetaData(EventDataset('ds'), {'metadata_type': 'no_such_type'}), lambda e: e.PRIM('A').Count())",
+        "Select(MetaData(EventDataset('ds'), {'name': 'x'}), lambda e: e.PRIM('A').Count())",
+        "Select(MetaData(EventDataset('ds'), {'metadata_type': 'add_method_type_info', 'type_string': 'T'}), lambda e: e.PRIM('A').Count())",
+        "Select(MetaData(EventDataset('ds'), {'metadata_type': 'add_cpp_function', 'name': 'f'}), lambda e: e.PRIM('A').Count())",
+        "Select(MetaData(EventDataset('ds'), {'metadata_type': 'inject_code', 'name': 'b', 'no_such_field': ['x']}), lambda e: e.PRIM('A').Count())",
+        "Select(MetaData(EventDataset('ds'), {'metadata_type': 'add_job_script', 'name': 'b'}), lambda e: e.PRIM('A').Count())",
+        "Select(MetaData(EventDataset('ds'), {'metadata_type': 'define_enum', 'name': 'b'}), lambda e: e.PRIM('A').Count())",
+        "Select(MetaData(MetaData(EventDataset('ds'), {'metadata_type': 'inject_code', 'name': 'b', 'body_includes': ['x.h']}), {'metadata_type': 'inject_code', 'name': 'b', 'body_includes': ['y.h']}), lambda e: e.PRIM('A').Count())",
+        "ResultTTree(Select(EventDataset('ds'), lambda e: e.PRIM('A').Count()), ('a', 'b'), 't', 'f.root')",
+        "ResultTTree(Select(EventDataset('ds'), lambda e: (e.PRIM('A').Count(), e.SEC('B').Count())), 'a', 't', 'f.root')",
+        "Select(EventDataset('ds'))",
+    ]
+    for q in tops:
+        add(q, ("must_raise", "top"))
+    return out
